@@ -84,7 +84,7 @@ int simk_fcntl(int fd, int cmd, ...) {
 }
 
 static bool rd_ready(Thread *t) { OFD *o = t->wait_ofd; return o->pipe->len > 0 || o->pipe->writers == 0; }
-static bool wr_ready(Thread *t) { OFD *o = t->wait_ofd; return o->pipe->space() > 0 || o->pipe->readers == 0; }
+static bool wr_ready(Thread *t) { OFD *o = t->wait_ofd; return o->pipe->space() >= t->wait_need || o->pipe->readers == 0; }
 static bool never_ready(Thread *) { return false; }
 
 ssize_t simk_read(int fd, void *buf, size_t n) {
@@ -168,6 +168,7 @@ ssize_t simk_write(int fd, const void *buf, size_t n) {
       FAIL(K_write, fd, (int64_t) n, pp->id, EAGAIN, 0);
     }
     t->wait_ofd = o;
+    t->wait_need = n <= atomic ? limit - done : 1;
     parked = true;
     k->park(t, wr_ready, -1, K_write);
   }
